@@ -90,7 +90,22 @@ def gen_random(rng, maxn):
                      for _ in range(rng.randint(0, 2))]}
 
 
+def gen_scale(rng):
+    """A deep/wide hierarchy with many entities; components of indirect
+    subclasses are attached and detached BETWEEN two rounds of queries."""
+    n = 9
+    dag = [[]] + [[rng.randrange(i)] if rng.random() < 0.7
+                  else rng.sample(range(i), min(2, i)) for i in range(1, n)]
+    ents = [rng.sample(range(n), rng.randint(1, 3)) for _ in range(130)]
+    return {'dag': dag, 'entities': ents, 'procs': list(range(n)),
+            'scale': True, 'late': [[n - 1], [rng.randrange(n)]],
+            'churn': [[rng.randrange(130), rng.randrange(n)]
+                      for _ in range(40)]}
+
+
 def gen_cases(tier, seed):
+    for i in range(2 if tier == 'quick' else 32):
+        yield gen_scale(random.Random(f'C06/scale/{seed}/{tier}/{i}'))
     for dag in all_small_dags(4):
         ents, procs = fixed_population(len(dag))
         yield {'dag': dag, 'entities': ents, 'procs': procs}
@@ -225,6 +240,8 @@ def run_case(case):
                      [f'D{k}' for k in match], getattr(one, 'uid', repr(one)),
                      t)
                 return _fin(res)
+            if case.get('scale'):
+                continue            # rebuilt copies are for the small cases
             # ---- remove_component on a rebuilt copy
             w2, comps2, procs2 = build_world()
             e2, row2 = comps2[[x[0] for x in comps].index(e)]
@@ -295,6 +312,31 @@ def run_case(case):
         if multi and any(paths[t][x] >= 2 for x in populated):
             res.nontrivial = True
             res.stats['queries_with_multipath_match'] += 1
+    # ---- churn: attach / replace / detach components after the queries
+    # above, then every get(T) again (query results must not go stale)
+    for ei, k in case.get('churn', []):
+        e, row = comps[ei]
+        if k in row:
+            w.remove_component(e, comp_classes[k])
+            del row[k]
+        else:
+            c = comp_classes[k]()
+            c.uid = (ei, k, 'churn')
+            w.add_component(e, c)
+            row[k] = c
+        res.stats['churn_ops'] += 1
+        for t in range(n):
+            want = collections.Counter(
+                (x, c.uid) for x, r in comps for kk, c in r.items()
+                if isinstance(kk, int) and sub(comp_classes, kk, t))
+            got = collections.Counter(
+                (x, c.uid) for x, c in w.get(comp_classes[t]))
+            res.stats['queries_checked'] += 1
+            if got != want:
+                fail('get-after-churn', f'get(D{t}) after components of '
+                     f'D{k} were attached/detached', len(want),
+                     sorted(map(str, (got - want) + (want - got)))[:6], t)
+                return _fin(res)
     # ---- classes defined after the world was already queried
     for li, bases in enumerate(case.get('late', [])):
         try:
